@@ -64,7 +64,7 @@ type aftersunLogSpec struct {
 type aftersunMirrorSpec struct {
 	Sizes    []int  `json:"sizes"`              // mirrored sizes in order (add-checkpoint + add-entries each)
 	Pending  int    `json:"pending,omitempty"`  // extra entries witnessed but not mirrored
-	Uploaded int    `json:"uploaded,omitempty"` // … of which this many were already uploaded (add-entries without reaching the commit)
+	Uploaded int    `json:"uploaded,omitempty"` // … of which about this many were already uploaded (an add-entries request that broke off before the commit)
 	Ckpt     string `json:"ckpt,omitempty"`     // "" | missing | garbage | renamed
 }
 
@@ -276,7 +276,7 @@ func (w *aftersunWorld) buildMirrors() error {
 			if sp.Uploaded > 0 && sp.Uploaded < sp.Pending {
 				// an upload that stops short of the witnessed size: tiles are written past the mirror checkpoint (a full
 				// sibling of its right-edge partial may appear), the mirror checkpoint itself does not move
-				_ = wit.AddEntries(ml, prev, prev+int64(sp.Uploaded), prev+int64(sp.Pending))
+				_ = wit.AddEntriesCut(ml, prev, prev+int64(sp.Pending), prev+int64(sp.Pending), int((prev+int64(sp.Uploaded))/256-prev/256))
 			}
 		}
 		h := witness.OriginHash(origin)
@@ -1052,7 +1052,14 @@ func aftersunRun(args []string) int {
 			st.Count("skipped:time-budget")
 			continue
 		}
+		tc := time.Now()
 		fs := aftersunRunCase(c, tr, st, work)
+		for _, f := range fs {
+			if f.Signature == "hang" {
+				budget += time.Since(tc) // a killed run is not charged: the remaining cases still get their turn
+				break
+			}
+		}
 		st.Count("family:" + c.Family)
 		for _, f := range fs {
 			if f.Property != "C18" {
